@@ -90,7 +90,7 @@ def run(ctx: core.Ctx) -> core.Report:
     for a in S:
         for egs in ((), (5,), (5, 9)):
             sv = dataclasses.replace(a, eventgroups=frozenset(egs))
-            for sid, iid, maj, egid, cnt in itertools.product((7, 8), (1, 2), (1, 2), (5, 9, 6), (0, 3)):
+            for sid, iid, maj, egid, cnt in itertools.product((7, 8), (1, 2, 0xFFFF), (1, 2, 0xFF), (5, 9, 6), (0, 3)):  # entry-side wildcard VALUES are not wildcards (m94)
                 e = H.SOMEIPSDEntry(sd_type=H.SOMEIPSDEntryType.Subscribe, service_id=sid, instance_id=iid, major_version=maj, ttl=3,
                                     minver_or_counter=(cnt << 16) | egid)
                 r = sv.matches_subscribe(e)
